@@ -14,6 +14,8 @@ use std::collections::{BTreeMap, HashMap, HashSet};
 use std::fs;
 use syn::spanned::Spanned;
 
+static FLAGS_OFF: std::sync::atomic::AtomicBool = std::sync::atomic::AtomicBool::new(false);
+
 fn die(msg: &str) -> ! {
     eprintln!("MTX-ERROR: {}", msg);
     std::process::exit(2);
@@ -155,6 +157,8 @@ fn parse_vspec(path: &str) -> (String, Vec<Directive>) {
                 for d in sub {
                     match d {
                         Directive::Extract { file, selector, ov, line, .. } => out.push(Directive::Extract { file, selector, ov, line, stub: true }),
+                        // lemmas of a stubbed fragment keep their statement but not their proof (it is checked in the fragment's own unit)
+                        Directive::Verbatim(t) => out.push(Directive::Verbatim(strip_proof_bodies(&t))),
                         other => out.push(other),
                     }
                 }
@@ -318,6 +322,56 @@ fn parse_vspec(path: &str) -> (String, Vec<Directive>) {
     (unit, out)
 }
 
+/// `pub proof fn NAME(..) requires .. ensures .. { proof }`  ->  `#[verifier::external_body] pub proof fn NAME(..) requires .. ensures .. { }`
+/// (the body starts at the first line that begins with `{` after the signature line)
+fn strip_proof_bodies(text: &str) -> String {
+    let lines: Vec<&str> = text.lines().collect();
+    let mut out = String::new();
+    let mut i = 0;
+    while i < lines.len() {
+        let l = lines[i];
+        if l.starts_with("pub proof fn ") || l.starts_with("proof fn ") {
+            out.push_str("#[verifier::external_body] // lemma proved in the fragment's own unit\n");
+            // signature + spec lines up to the body
+            let mut j = i;
+            loop {
+                if j > i && lines[j].starts_with('{') {
+                    break;
+                }
+                // one-line lemma: signature and body on the same line cannot occur in this code base
+                out.push_str(lines[j]);
+                out.push('\n');
+                j += 1;
+                if j >= lines.len() {
+                    die("strip_proof_bodies: lemma without a body line starting with `{`");
+                }
+            }
+            // skip the body by brace matching
+            let mut depth = 0i32;
+            loop {
+                for ch in lines[j].chars() {
+                    if ch == '{' {
+                        depth += 1;
+                    } else if ch == '}' {
+                        depth -= 1;
+                    }
+                }
+                j += 1;
+                if depth <= 0 || j >= lines.len() {
+                    break;
+                }
+            }
+            out.push_str("{ }\n");
+            i = j;
+        } else {
+            out.push_str(l);
+            out.push('\n');
+            i += 1;
+        }
+    }
+    out
+}
+
 fn split_top_commas(s: &str) -> Vec<String> {
     let mut out = Vec::new();
     let mut depth = 0i32;
@@ -408,6 +462,8 @@ struct Walker<'s> {
     block_stmts: HashMap<String, usize>,
     shapes_seen: Vec<(String, Vec<String>)>,
     realigned: Vec<String>,
+    block_alias: HashMap<String, String>,
+    ctx: Vec<(String, Option<usize>, [usize; 3])>,
     env: Vec<HashMap<String, (K, K)>>,
     used: HashSet<String>,
     cut_defs: Vec<String>,
@@ -585,7 +641,43 @@ impl<'s> Walker<'s> {
     fn anchor_text(&mut self, key: &str) -> Option<String> {
         if let Some(t) = self.ov.at.get(key) {
             self.used.insert(key.to_string());
-            Some(t.clone())
+            return Some(t.clone());
+        }
+        // positional alias of the block (e.g. `fn.s23t` for the then-block of the `if` that is statement 23 of the body)
+        if let Some(dot) = key.rfind('.') {
+            let (blk, suf) = key.split_at(dot);
+            if let Some(al) = self.block_alias.get(blk) {
+                let k2 = format!("{}{}", al, suf);
+                if let Some(t) = self.ov.at.get(&k2) {
+                    self.used.insert(k2);
+                    return Some(t.clone());
+                }
+            }
+        }
+        None
+    }
+    /// overlay text of the next fold / filter: positional key `<blk>.s<k>.F<n>` first, then the global ordinal `F<k>`
+    fn fold_overlay(&mut self, what: &str, at: usize) -> String {
+        self.folds += 1;
+        let g = format!("F{}", self.folds);
+        if let Some(k) = self.local_key(2, "F") {
+            if let Some(t) = self.ov.folds.get(&k).cloned() {
+                self.used.insert(format!("fold:{}", k));
+                return t;
+            }
+        }
+        let t = self.ov.folds.get(&g).cloned().unwrap_or_else(|| die(&format!("lost anchor: {} `{}` has no @fold overlay at {}:{}", what, g, self.src.path, self.src.line_of(at))));
+        self.used.insert(format!("fold:{}", g));
+        t
+    }
+    fn shape_of(&self, name: &str) -> Option<&Vec<String>> {
+        self.ov.shapes.get(name).or_else(|| self.block_alias.get(name).and_then(|a| self.ov.shapes.get(a)))
+    }
+    /// positional name of the k-th construct (closure / if / fold) inside the statement being walked
+    fn local_key(&mut self, which: usize, letter: &str) -> Option<String> {
+        if let Some((blk, Some(e), cnt)) = self.ctx.last_mut() {
+            cnt[which] += 1;
+            Some(format!("{}.s{}.{}{}", blk, e, letter, cnt[which]))
         } else {
             None
         }
@@ -600,7 +692,7 @@ impl<'s> Walker<'s> {
         self.shapes_seen.push((name.to_string(), actual_shapes.clone()));
         // ordinal anchors are written against the expected shape of the block; after an edit that inserts or deletes
         // statements they are re-attached through an LCS alignment of the statement shapes
-        let (n_exp, before): (usize, Vec<Vec<usize>>) = match self.ov.shapes.get(name) {
+        let (n_exp, before): (usize, Vec<Vec<usize>>) = match self.shape_of(name).cloned().as_ref() {
             Some(exp) if *exp != actual_shapes => {
                 let al = lcs_align(exp, &actual_shapes);
                 let mut before: Vec<Vec<usize>> = vec![Vec::new(); n + 1];
@@ -623,7 +715,7 @@ impl<'s> Walker<'s> {
         for (k, st) in b.stmts.iter().enumerate() {
             let st_start = self.stmt_start(st);
             // expected index of this statement (None if it was inserted by the edit)
-            let exp_idx: Option<usize> = before[k].last().copied().filter(|e| self.ov.shapes.get(name).map(|x| x.get(*e) == Some(&actual_shapes[k])).unwrap_or(true));
+            let exp_idx: Option<usize> = before[k].last().copied().filter(|e| self.shape_of(name).map(|x| x.get(*e) == Some(&actual_shapes[k])).unwrap_or(true));
             for e in before[k].iter() {
                 if let Some(t) = self.anchor_text(&format!("{}.s{}", name, e)) {
                     self.open(st_start, &format!("{}\n", t.trim_end()), "overlay");
@@ -667,7 +759,9 @@ impl<'s> Walker<'s> {
                 self.replace((s, e), "", "R8");
                 continue;
             }
+            self.ctx.push((name.to_string(), exp_idx, [0, 0, 0]));
             self.walk_stmt(st);
+            self.ctx.pop();
         }
         let close = self.src.off(b.brace_token.span.close().start());
         let has_tail = n > 0 && is_value_tail(&b.stmts[n - 1]);
@@ -950,6 +1044,12 @@ impl<'s> Walker<'s> {
             If(i) => {
                 self.ifs += 1;
                 let name = format!("I{}", self.ifs);
+                if let Some(lk) = self.local_key(1, "I") {
+                    // the first `if` of a statement is addressed as `<blk>.s<k>t` / `<blk>.s<k>e`
+                    let pos = if lk.ends_with(".I1") { lk[..lk.len() - 3].to_string() } else { lk };
+                    self.block_alias.insert(format!("{}t", name), format!("{}t", pos));
+                    self.block_alias.insert(format!("{}e", name), format!("{}e", pos));
+                }
                 self.walk_expr(&i.cond);
                 self.walk_block(&i.then_branch, &format!("{}t", name));
                 if let Some((_, eb)) = &i.else_branch {
@@ -986,10 +1086,7 @@ impl<'s> Walker<'s> {
                     "fold" if matches!(&*m.receiver, MethodCall(inner) if inner.method == "map" && inner.args.len() == 1) => {
                         // `.map(F).fold(init, G)`  ->  verif_map_fold(RECV, F, init, G, Ghost(inv))
                         if let MethodCall(inner) = &*m.receiver {
-                            self.folds += 1;
-                            let key = format!("F{}", self.folds);
-                            let inv = self.ov.folds.get(&key).cloned().unwrap_or_else(|| die(&format!("lost anchor: fold `{}` has no @fold overlay (invariant) at {}:{}", key, self.src.path, self.src.line_of(es))));
-                            self.used.insert(format!("fold:{}", key));
+                            let inv = self.fold_overlay("fold", es);
                             let (_, ire) = self.src.range(inner.receiver.span());
                             let ipo_end = self.src.off(inner.paren_token.span.open().end());
                             let ipc_start = self.src.off(inner.paren_token.span.close().start());
@@ -1010,20 +1107,14 @@ impl<'s> Walker<'s> {
                         }
                     }
                     "fold" => {
-                        self.folds += 1;
-                        let key = format!("F{}", self.folds);
-                        let inv = self.ov.folds.get(&key).cloned().unwrap_or_else(|| die(&format!("lost anchor: fold `{}` has no @fold overlay (invariant) at {}:{}", key, self.src.path, self.src.line_of(es))));
-                        self.used.insert(format!("fold:{}", key));
+                        let inv = self.fold_overlay("fold", es);
                         self.open(es, "verif_fold(", "R13");
                         self.replace((re, po_end), ", ", "R13");
                         let lead = if m.args.trailing_punct() { "" } else { ", " };
                         self.close(pc_start, &format!("{}Ghost({})", lead, inv), "R13");
                     }
                     "filter" if m.args.len() == 1 => {
-                        self.folds += 1;
-                        let key = format!("F{}", self.folds);
-                        let pred = self.ov.folds.get(&key).cloned().unwrap_or_else(|| die(&format!("lost anchor: filter `{}` has no @fold overlay (predicate) at {}:{}", key, self.src.path, self.src.line_of(es))));
-                        self.used.insert(format!("fold:{}", key));
+                        let pred = self.fold_overlay("filter", es);
                         self.open(es, "verif_filter(", "R13");
                         self.replace((re, po_end), ", ", "R13");
                         let lead = if m.args.trailing_punct() { "" } else { ", " };
@@ -1168,6 +1259,9 @@ impl<'s> Walker<'s> {
                 if segs.len() >= 2 && segs[segs.len() - 2] == "consts" && segs[segs.len() - 1] == "PI" {
                     let r = self.src.range(e.span());
                     self.replace(r, "f64_const_pi()", "R7");
+                } else if segs.len() >= 2 && segs[segs.len() - 2] == "f64" && ["EPSILON", "MAX", "MIN", "MIN_POSITIVE", "INFINITY", "NEG_INFINITY", "NAN"].contains(&segs[segs.len() - 1].as_str()) {
+                    let r = self.src.range(e.span());
+                    self.replace(r, &format!("f64_const_{}()", segs[segs.len() - 1].to_lowercase()), "R7");
                 }
             }
             Lit(_) | Break(_) | Continue(_) => {}
@@ -1306,9 +1400,20 @@ impl<'s> Walker<'s> {
     fn walk_closure(&mut self, c: &syn::ExprClosure) {
         self.closures += 1;
         let name = format!("C{}", self.closures);
-        let cov = self.ov.closures.get(&name).cloned();
-        if cov.is_some() {
-            self.used.insert(format!("closure:{}", name));
+        let lk = self.local_key(0, "C");
+        let mut cov = None;
+        if let Some(k) = &lk {
+            if let Some(c) = self.ov.closures.get(k) {
+                cov = Some(c.clone());
+                self.used.insert(format!("closure:{}", k));
+                self.block_alias.insert(name.clone(), k.clone());
+            }
+        }
+        if cov.is_none() {
+            cov = self.ov.closures.get(&name).cloned();
+            if cov.is_some() {
+                self.used.insert(format!("closure:{}", name));
+            }
         }
         self.env.push(HashMap::new());
         // parameters
@@ -1467,7 +1572,11 @@ fn lcs_align(exp: &[String], act: &[String]) -> Vec<Option<usize>> {
 /// a trailing expression that is the value of its block (loops without `;` are statements of type `()`)
 fn is_value_tail(st: &syn::Stmt) -> bool {
     match st {
-        syn::Stmt::Expr(e, None) => !matches!(e, syn::Expr::ForLoop(_) | syn::Expr::While(_) | syn::Expr::Loop(_)),
+        syn::Stmt::Expr(e, None) => match e {
+            syn::Expr::ForLoop(_) | syn::Expr::While(_) | syn::Expr::Loop(_) => false,
+            syn::Expr::If(i) => i.else_branch.is_some(),
+            _ => true,
+        },
         _ => false,
     }
 }
@@ -1666,6 +1775,8 @@ fn extract_fn(src: &Src, file: &syn::File, selector: &str, ov: &FnOverlay, map: 
         block_stmts: HashMap::new(),
         shapes_seen: vec![],
         realigned: vec![],
+        block_alias: HashMap::new(),
+        ctx: vec![],
         env: vec![HashMap::new()],
         used: HashSet::new(),
         cut_defs: Vec::new(),
@@ -1703,7 +1814,7 @@ fn extract_fn(src: &Src, file: &syn::File, selector: &str, ov: &FnOverlay, map: 
                 }
                 first = false;
                 // parameter type with R3 applied
-                let mut tw = Walker { src, ov, edits: Vec::new(), depth: 0, loops: 0, closures: 0, ifs: 0, matches: 0, folds: 0, block_stmts: HashMap::new(), shapes_seen: vec![], realigned: vec![], env: vec![HashMap::new()], used: HashSet::new(), cut_defs: vec![], cut_info: vec![], r2: true };
+                let mut tw = Walker { src, ov, edits: Vec::new(), depth: 0, loops: 0, closures: 0, ifs: 0, matches: 0, folds: 0, block_stmts: HashMap::new(), shapes_seen: vec![], realigned: vec![], block_alias: HashMap::new(), ctx: vec![], env: vec![HashMap::new()], used: HashSet::new(), cut_defs: vec![], cut_info: vec![], r2: true };
                 tw.walk_type(&pt.ty);
                 let (ts, te) = src.range(pt.ty.span());
                 let (tytxt, _) = apply(src, ts, te, &mut tw.edits);
@@ -1718,7 +1829,7 @@ fn extract_fn(src: &Src, file: &syn::File, selector: &str, ov: &FnOverlay, map: 
     }
     head.push(')');
     if let syn::ReturnType::Type(_, ty) = &sig.output {
-        let mut tw = Walker { src, ov, edits: Vec::new(), depth: 0, loops: 0, closures: 0, ifs: 0, matches: 0, folds: 0, block_stmts: HashMap::new(), shapes_seen: vec![], realigned: vec![], env: vec![HashMap::new()], used: HashSet::new(), cut_defs: vec![], cut_info: vec![], r2: true };
+        let mut tw = Walker { src, ov, edits: Vec::new(), depth: 0, loops: 0, closures: 0, ifs: 0, matches: 0, folds: 0, block_stmts: HashMap::new(), shapes_seen: vec![], realigned: vec![], block_alias: HashMap::new(), ctx: vec![], env: vec![HashMap::new()], used: HashSet::new(), cut_defs: vec![], cut_info: vec![], r2: true };
         tw.walk_type(ty);
         let (ts, te) = src.range(ty.span());
         let (tytxt, _) = apply(src, ts, te, &mut tw.edits);
@@ -1729,8 +1840,21 @@ fn extract_fn(src: &Src, file: &syn::File, selector: &str, ov: &FnOverlay, map: 
         head.push_str(&format!(" -> ({}: {})", rn, tytxt));
     }
     head.push('\n');
-    if !ov.spec.trim().is_empty() {
-        head.push_str(ov.spec.trim_end());
+    // C17 differential variant: the two debug flags are assumed off in every function that receives the settings
+    let has_settings = sig.inputs.iter().any(|a| matches!(a, syn::FnArg::Typed(pt) if src.slice(pt.pat.span()) == "settings"));
+    let flags_clause = "!settings.print_debug_info && !settings.return_metadata,";
+    let mut spec_txt = ov.spec.trim_end().to_string();
+    if FLAGS_OFF.load(std::sync::atomic::Ordering::Relaxed) && has_settings {
+        let t = spec_txt.trim_start();
+        if t.starts_with("requires") {
+            let pos = spec_txt.find("requires").unwrap() + "requires".len();
+            spec_txt.insert_str(pos, &format!(" {}", flags_clause));
+        } else {
+            spec_txt = format!("    requires {}\n{}", flags_clause, spec_txt);
+        }
+    }
+    if !spec_txt.trim().is_empty() {
+        head.push_str(&spec_txt);
         head.push('\n');
     }
     if stub {
@@ -1739,7 +1863,7 @@ fn extract_fn(src: &Src, file: &syn::File, selector: &str, ov: &FnOverlay, map: 
         let mut sr: Vec<(&'static str, usize)> = Vec::new();
         if let Some(im) = sel.imp {
             let g = generics_text(src, &im.generics, &mut sr);
-            let mut tw = Walker { src, ov, edits: Vec::new(), depth: 0, loops: 0, closures: 0, ifs: 0, matches: 0, folds: 0, block_stmts: HashMap::new(), shapes_seen: vec![], realigned: vec![], env: vec![HashMap::new()], used: HashSet::new(), cut_defs: vec![], cut_info: vec![], r2: true };
+            let mut tw = Walker { src, ov, edits: Vec::new(), depth: 0, loops: 0, closures: 0, ifs: 0, matches: 0, folds: 0, block_stmts: HashMap::new(), shapes_seen: vec![], realigned: vec![], block_alias: HashMap::new(), ctx: vec![], env: vec![HashMap::new()], used: HashSet::new(), cut_defs: vec![], cut_info: vec![], r2: true };
             tw.walk_type(&im.self_ty);
             let (ts, te) = src.range(im.self_ty.span());
             let (selfty, _) = apply(src, ts, te, &mut tw.edits);
@@ -1850,7 +1974,7 @@ fn extract_fn(src: &Src, file: &syn::File, selector: &str, ov: &FnOverlay, map: 
     let mut pre_lines = 0usize;
     if let Some(im) = sel.imp {
         let g = generics_text(src, &im.generics, &mut sigrules);
-        let mut tw = Walker { src, ov, edits: Vec::new(), depth: 0, loops: 0, closures: 0, ifs: 0, matches: 0, folds: 0, block_stmts: HashMap::new(), shapes_seen: vec![], realigned: vec![], env: vec![HashMap::new()], used: HashSet::new(), cut_defs: vec![], cut_info: vec![], r2: true };
+        let mut tw = Walker { src, ov, edits: Vec::new(), depth: 0, loops: 0, closures: 0, ifs: 0, matches: 0, folds: 0, block_stmts: HashMap::new(), shapes_seen: vec![], realigned: vec![], block_alias: HashMap::new(), ctx: vec![], env: vec![HashMap::new()], used: HashSet::new(), cut_defs: vec![], cut_info: vec![], r2: true };
         tw.walk_type(&im.self_ty);
         let (ts, te) = src.range(im.self_ty.span());
         let (selfty, _) = apply(src, ts, te, &mut tw.edits);
@@ -1943,7 +2067,7 @@ fn extract_struct(src: &Src, file: &syn::File, name: &str, opts: &HashMap<String
                 t.push_str(&format!("pub struct {}{} {{\n", s.ident, g));
                 let mut n_r3 = 0;
                 for f in s.fields.iter() {
-                    let mut tw = Walker { src, ov: &ov, edits: Vec::new(), depth: 0, loops: 0, closures: 0, ifs: 0, matches: 0, folds: 0, block_stmts: HashMap::new(), shapes_seen: vec![], realigned: vec![], env: vec![HashMap::new()], used: HashSet::new(), cut_defs: vec![], cut_info: vec![], r2: true };
+                    let mut tw = Walker { src, ov: &ov, edits: Vec::new(), depth: 0, loops: 0, closures: 0, ifs: 0, matches: 0, folds: 0, block_stmts: HashMap::new(), shapes_seen: vec![], realigned: vec![], block_alias: HashMap::new(), ctx: vec![], env: vec![HashMap::new()], used: HashSet::new(), cut_defs: vec![], cut_info: vec![], r2: true };
                     tw.walk_type(&f.ty);
                     n_r3 += tw.edits.len();
                     let (ts, te) = src.range(f.ty.span());
@@ -2015,6 +2139,10 @@ fn main() {
             "--canary" => {
                 canary = Some(args[i + 1].clone());
                 i += 2
+            }
+            "--flags-off" => {
+                FLAGS_OFF.store(true, std::sync::atomic::Ordering::Relaxed);
+                i += 1
             }
             "--contracts" => {
                 contracts = args[i + 1].clone();
